@@ -10,7 +10,7 @@ RULE = ("stateful: 1-3 live SequenceParameters objects over generated sequences 
         "x a history of up to 25 (quick) / 50 (thorough) read-only queries with generated arguments drawn from the whole get_* API "
         "(incl. get_deltaMax(False/True), get_kappa_X(groups), get_linear_*(w), get_linear_sequence_composition with and without groups, "
         "get_linear_complexity, get_reduced_alphabet_sequence, pH getters, phospho getters, get_HTMLColorString, len, str), repetition allowed. "
-        "Oracle: each result (or exception type) is compared bit-for-bit (arrays with array_equal, containers structurally) with (a) the same "
+        "A shuffle op turns get_shuffled_sequence() of a live object (optionally after asking it for its delta-max permutant) into a further live object that must answer like a fresh object built from its own sequence. Mutable arguments (groups, user alphabets) are caller-owned containers refilled in place from call to call, and every returned list/dict/array is overwritten by the harness after it has been recorded. Oracle: each result (or exception type) is compared bit-for-bit (arrays with array_equal, containers structurally) with (a) the same "
         "query on a freshly constructed object and (b) the baseline recorded the first time that (sequence, phosphosites, query, args) was seen "
         "in the process; after every step the stored sequence and phosphosite list of every live object are unchanged. Non-trivial: >=2 queries "
         "on one object of which an earlier one can write state (kappa / deltaMax / Omega / phospho-kappa / default-argument calls); distinct "
@@ -52,21 +52,55 @@ def freeze(x):
     return (type(x).__name__, repr(x))
 
 
-def do(o, q, args):
+# caller-owned argument objects that are REUSED (refilled in place) from call to call, as a script looping over settings would do
+_SHARED = {"dict": {}, "list": [], "list2": [], "groups": []}
+
+
+def scribble(x):
+    """The caller owns what a query returns: overwrite it after it has been recorded (a later answer must not notice)."""
+    try:
+        if isinstance(x, np.ndarray) and x.size:
+            x[...] = -7
+        elif isinstance(x, list):
+            x.append("scribble")
+            x.reverse()
+        elif isinstance(x, dict):
+            for k in list(x):
+                x[k] = "scribble"
+        elif isinstance(x, tuple):
+            for v in x:
+                scribble(v)
+    except Exception:   # noqa
+        pass
+
+
+def do(o, q, args, shared=False):
     args = jsonable(args) if args is not None else []
     a = list(args)
+    def own(kind, value):
+        if not shared:
+            return value
+        box = _SHARED[kind]
+        box.clear()
+        box.update(value) if isinstance(box, dict) else box.extend(value)
+        return box
     if q == "get_kappa_X":
-        a = [list(a[0])] + ([list(a[1])] if len(a) > 1 and a[1] is not None else [])
+        a = [own("list", list(a[0]))] + ([own("list2", list(a[1]))] if len(a) > 1 and a[1] is not None else [])
     elif q == "get_linear_sequence_composition" and len(a) > 1:
-        a = [a[0], [list(g) for g in a[1]]]
+        a = [a[0], own("groups", [list(g) for g in a[1]])]
     elif q == "get_reduced_alphabet_sequence" and len(a) > 1:
-        a = [a[0], dict(a[1])]
+        a = [a[0], own("dict", dict(a[1]))]
     try:
         if q == "get_linear_complexity":
             if len(a) > 2 and isinstance(a[2], dict):
-                return ("ok", freeze(getattr(o, q)(a[0], a[1], dict(a[2]), *a[3:])))
-            return ("ok", freeze(getattr(o, q)(*a[:2], {}, *a[2:]) if len(a) > 2 else getattr(o, q)(*a)))
-        return ("ok", freeze(getattr(o, q)(*a)))
+                res = getattr(o, q)(a[0], a[1], own("dict", dict(a[2])), *a[3:])
+            else:
+                res = getattr(o, q)(*a[:2], {}, *a[2:]) if len(a) > 2 else getattr(o, q)(*a)
+        else:
+            res = getattr(o, q)(*a)
+        out = ("ok", freeze(res))
+        scribble(res)
+        return out
     except Exception as e:   # noqa
         return ("exc", type(e).__name__)
 
@@ -98,10 +132,26 @@ class Sim:
     def apply(self, op, args):
         self.nsteps += 1
         i = args["obj"] % len(self.objs)
+        if op == "shuffle":
+            # a shuffled copy is a new live object: from now on it must answer like an object freshly built from its own sequence
+            if len(self.objs) >= 5:
+                return
+            parent = self.objs[i]
+            if args.get("ask_permutant_first"):
+                parent.get_deltaMax(True)
+            from .. import tape as _tape
+            with _tape.installed(_tape.Tape(int(args.get("tape", 0)))):      # the shuffle's PRNG is owned by the harness: histories replay
+                child = parent.get_shuffled_sequence(set(args.get("frozen") or []) & set(range(len(self.specs[i][0]))))
+            self.ctx.check(sorted(child.get_sequence()) == sorted(self.specs[i][0]), "shuffle-not-a-rearrangement", "get_shuffled_sequence returned %r" % (child.get_sequence(),))
+            self.specs.append((child.get_sequence(), []))
+            self.objs.append(child)
+            self.per_obj.append(["<shuffled-from-%d>" % i])
+            self.nt = True
+            return
         q, qa = args["q"], args.get("args")
         seq, phos = self.specs[i]
-        got = do(self.objs[i], q, qa)
-        fresh = do(self.build(i), q, qa)
+        got = do(self.objs[i], q, qa, shared=True)
+        fresh = do(self.build(i), q, qa, shared=True)
         what = "%s(%s) on object %d (%s, phosphosites %r) after %r" % (q, "" if qa is None else repr(qa)[1:-1], i, seq, phos, self.per_obj[i][-6:])
         self.ctx.check(got == fresh, "differs-from-fresh:" + q, "%s returned %s; a fresh object returns %s" % (what, str(got)[:300], str(fresh)[:300]))
         key = case_hash([seq, phos, q, qa])
@@ -136,7 +186,7 @@ W = st.one_of(st.integers(1, 34), st.sampled_from([1, 1, 2, 5, 6]))
 @st.composite
 def queries(draw):
     kind = draw(st.integers(0, 9))
-    obj = draw(st.integers(0, 2))
+    obj = draw(st.integers(0, 4))
     if kind <= 3:
         q = draw(st.sampled_from(NOARG))
         if draw(st.integers(0, 3)) == 0:
@@ -160,13 +210,14 @@ def queries(draw):
             a.append(draw(st.lists(GROUP.map("".join), min_size=1, max_size=3)))
         return {"obj": obj, "q": q, "args": a}
     if kind == 8:
-        if draw(st.booleans()):
+        if draw(st.integers(0, 2)) == 0:
             a = [draw(st.sampled_from(sorted(ref.PARTITIONS) + [7, 0]))]
             if draw(st.booleans()):
                 a = [20, draw(USER)]
             return {"obj": obj, "q": "get_reduced_alphabet_sequence", "args": a}
         if draw(st.integers(0, 2)) == 0:
-            return {"obj": obj, "q": "get_linear_complexity", "args": [draw(st.sampled_from(["WF", "LC", "LZW"])), 20, draw(USER), draw(st.integers(1, 12)), draw(st.integers(1, 5)), draw(st.integers(1, 4))]}
+            # few distinct settings, so that the same setting recurs with ANOTHER alphabet in the same caller-owned dict
+            return {"obj": obj, "q": "get_linear_complexity", "args": [draw(st.sampled_from(["WF", "WF", "LC", "LZW"])), 20, draw(USER), draw(st.sampled_from([3, 5])), 1, 3]}
         return {"obj": obj, "q": "get_linear_complexity", "args": [draw(st.sampled_from(["WF", "LC", "LZW", "lc", "XX"])), draw(st.sampled_from(sorted(ref.PARTITIONS))),
                                                                       draw(st.integers(1, 32)), draw(st.integers(1, 5)), draw(st.integers(1, 4))]}
     return {"obj": obj, "q": "get_PPII_propensity", "args": [draw(st.sampled_from(["hilser", "creamer", "kallenbach", "HILSER", "nope"]))]}
@@ -190,7 +241,8 @@ def inits(draw):
     return {"objs": objs}
 
 
-OPS = {"query": queries()}
+OPS = {"query": queries(),
+       "shuffle": st.fixed_dictionaries({"obj": st.integers(0, 4), "ask_permutant_first": st.booleans(), "frozen": st.lists(st.integers(0, 29), max_size=3), "tape": st.integers(0, 10 ** 6)})}
 
 
 def run(ctx, tier, seed, idx, nshards):
